@@ -188,7 +188,26 @@ def gen_struct(uname, cls, cls_targs=None, cname=None):
         else:
             out.append('  %s %s;' % (cty, nm))
     name = cname or tm.info(cls + '<double>')['ctype']
-    return 'struct %s {\n%s\n};' % (name, '\n'.join(out))
+    # memberwise copy (the implicitly defined copy constructor)
+    cp = []
+    for b in c.get('bases', []):
+        bi = tm.info(b['type']['qualType'])
+        cp.append('  vp_%s_copy(&d->base, &s->base);' % bi['ctype'])
+    for f in X.kids(c):
+        if f['kind'] != 'FieldDecl':
+            continue
+        ti = tm.info(X.qtype(f))
+        nm = f['name']
+        if ti['kind'] == 'carray':
+            cp += ['  d->%s[%d] = s->%s[%d];' % (nm, i, nm, i) for i in range(ti['count'])]
+        elif ti['ref'] or ti['ptr'] or ti['kind'] in ('scalar', 'opaque', 'engine'):
+            cp.append('  d->%s = s->%s;' % (nm, nm))
+        elif ti['kind'] == 'vec':
+            cp.append('  vp_%s_copy(&d->%s, &s->%s);' % (ti['ctype'], nm, nm))
+        else:
+            cp.append('  vp_%s_copy(&d->%s, &s->%s);' % (ti['ctype'], nm, nm))
+    copy = 'static inline void vp_%s_copy(struct %s *d, const struct %s *s)\n{\n%s\n}' % (name, name, name, '\n'.join(cp))
+    return 'struct %s {\n%s\n};' % (name, '\n'.join(out)), copy
 
 
 def load_specs(fnames):
@@ -207,17 +226,21 @@ def build_tu(job):
     parts = ['#include "vp.h"']
     for h in job.get('preludes', []):
         parts.append('#include "%s"' % h)
-    parts.append('int vp_thrown; size_t vp_gk, vp_gj;')
+    parts.append('int vp_thrown; size_t vp_gk, vp_gj, vp_gm;')
+    late_copies = []
     for st in job.get('structs', []):
         if isinstance(st, str):
             st = dict(cls=st)
         if st.get('opaque'):
             parts.append('struct %s { int vp_opaque; };' % st['cname'])
             continue
-        parts.append(gen_struct(st.get('unit', 'kernels'), st['cls'], st.get('cls_targs'), st.get('cname')))
+        sdef, scopy = gen_struct(st.get('unit', 'kernels'), st['cls'], st.get('cls_targs'), st.get('cname'))
+        parts.append(sdef)
         if st.get('vec'):
             parts.append('VP_DECLARE_VEC(vec_%s, struct %s)' % (st.get('cname') or st['cls'], st.get('cname') or st['cls']))
             parts.append('VP_DEFINE_VEC_OPS_STRUCT(vec_%s, struct %s)' % (st.get('cname') or st['cls'], st.get('cname') or st['cls']))
+        late_copies.append(scopy)
+    parts += late_copies
     if job.get('globals'):
         parts.append(job['globals'])
     for h in job.get('late_preludes', []):
